@@ -107,7 +107,7 @@ Theorem C09_index_answers_equal_scan_reachable : forall ops ltmo0 c,
   let e := mrun (einit ltmo0) ops in select_ids e c = map fst (matching e c).
 Proof.
   intros ops ltmo0 c Hw Hn e. apply select_index_eq_scan, AllGood_EntOK. unfold e. clear e.
-  destruct gen_c09_spec as [_ [_ [_ [_ [_ ->]]]]].
+  destruct gen_c09_spec as [_ [_ [_ [_ [_ [-> _]]]]]].
   assert (G : forall ops e0, Forall wf_op ops -> (forall tx, ~ In (RRollback tx) ops) -> AllGood e0 -> AllGood (rrun gen_insert_locks_row true e0 ops)).
   { clear. induction ops as [|o r IH]; intros e0 Hw Hn G0; [exact G0|].
     change (rrun gen_insert_locks_row true e0 (o :: r)) with (rrun gen_insert_locks_row true (fst (rstep gen_insert_locks_row true e0 o)) r).
@@ -131,7 +131,7 @@ Theorem C09_rollback_restores_indexes : forall ops ltmo0 e c,
 Proof.
   intros ops ltmo0 e c Hw Hn eb tx e0 H.
   assert (Gb : AllGood eb).
-  { unfold eb. destruct gen_c09_spec as [_ [_ [_ [_ [_ Eg]]]]]. rewrite Eg.
+  { unfold eb. destruct gen_c09_spec as [_ [_ [_ [_ [_ [Eg _]]]]]]. rewrite Eg.
     assert (G : forall ops e0, Forall wf_op ops -> (forall tx, ~ In (RRollback tx) ops) -> AllGood e0 -> AllGood (rrun gen_insert_locks_row true e0 ops)).
     { clear. induction ops as [|o r IH]; intros e0 Hw Hn G0; [exact G0|].
       change (rrun gen_insert_locks_row true e0 (o :: r)) with (rrun gen_insert_locks_row true (fst (rstep gen_insert_locks_row true e0 o)) r).
@@ -142,7 +142,7 @@ Proof.
   assert (G0 : AllGood e0) by (unfold e0; cbn [rstep begin fst]; apply (AllGood_data eb); auto).
   assert (Hl : aget (txs e0) tx = Some []) by (unfold e0, tx; cbn [rstep begin fst txs]; now rewrite aget_aset, N.eqb_refl).
   destruct (rollback_keeps_all_indexes gen_insert_locks_row tx e0 e H Hl G0) as [l [Ht Ga]].
-  exists l. split; [exact Ht|]. destruct gen_c09_spec as [_ [_ [_ [_ [_ ->]]]]]. cbv zeta.
+  exists l. split; [exact Ht|]. destruct gen_c09_spec as [_ [_ [_ [_ [_ [-> _]]]]]]. cbv zeta.
   apply select_index_eq_scan, AllGood_EntOK, Ga.
 Qed.
 
